@@ -42,3 +42,61 @@ package majority
 
 // importance of a criterion for this listener: its weight
 //@ spec mjImportance(l model.BiasListener, p *model.DecisionMakingParams, id string) real = p.MethodParameters.(MajorityHeuristicParams).Weights[id]
+
+// ---- the heuristic itself (C11)
+
+//@ pred better(a model.AlternativeWithCriteria, b model.AlternativeWithCriteria, c model.Criterion) = model.signed(a, c) - model.signed(b, c) > eps
+//@ spec score(cs []model.WeightedCriterion, a model.AlternativeWithCriteria, b model.AlternativeWithCriteria, n int) real =
+//@      n <= 0 ? 0.0 : score(cs, a, b, n - 1) + (better(a, b, cs[n - 1].Criterion) ? cs[n - 1].Weight : 0.0)
+
+//@ func compare
+//@   property C11
+//@   ensures [scores] result0 == score(*criteriaWithWeights, *a1, *a2, len(*criteriaWithWeights)) && result1 == score(*criteriaWithWeights, *a2, *a1, len(*criteriaWithWeights))
+//@   loop 1 invariant [partial] a1Score == score(*criteriaWithWeights, *a1, *a2, iter) && a2Score == score(*criteriaWithWeights, *a2, *a1, iter)
+
+// isRecord: the evaluation record of an alternative that met an opponent
+//@ pred isRecord(r model.AlternativeResult, alt model.AlternativeWithCriteria, value real, opponent string, opponentValue real) =
+//@      r.Alternative == alt && typeis(r.Evaluation, MajorityEvaluation) && r.Evaluation.(MajorityEvaluation).Value == value
+//@   && r.Evaluation.(MajorityEvaluation).ComparedWith == opponent && r.Evaluation.(MajorityEvaluation).ComparedAlternativeValue == opponentValue
+
+//@ func (*DrawAllowedResolver).Resolve
+//@   property C11
+//@   ensures [joins_the_tie_group] result != nil && len(result.sameBuffer) == len(sameBuffer) + 1
+//@             && (forall k int :: 0 <= k && k < len(sameBuffer) ==> result.sameBuffer[k] == old(sameBuffer[k]))
+//@             && isRecord(result.sameBuffer[len(sameBuffer)], another, newEval, current.Id, currentEval)
+//@   ensures [rest_unchanged] result.worseThanCurrent == worseThanCurrent && result.current == current
+
+//@ func (*CurrentIsWinnerDrawResolver).Resolve
+//@   property C11
+//@   ensures [newcomer_drops_out_alone] result != nil && len(result.worseThanCurrent) == len(worseThanCurrent) + 1
+//@             && (forall k int :: 0 <= k && k < len(worseThanCurrent) ==> result.worseThanCurrent[k] == old(worseThanCurrent[k]))
+//@             && len(result.worseThanCurrent[len(worseThanCurrent)]) == 1
+//@             && isRecord(result.worseThanCurrent[len(worseThanCurrent)][0], another, newEval, current.Id, currentEval)
+//@   ensures [rest_unchanged] result.sameBuffer == sameBuffer && result.current == current
+
+//@ func (*NewerIsWinnerResolver).Resolve
+//@   property C11
+//@   ensures [current_group_drops_out] result != nil && len(result.worseThanCurrent) == len(worseThanCurrent) + 1
+//@             && (forall k int :: 0 <= k && k < len(worseThanCurrent) ==> result.worseThanCurrent[k] == old(worseThanCurrent[k]))
+//@             && len(result.worseThanCurrent[len(worseThanCurrent)]) == len(sameBuffer) + 1
+//@             && (forall k int :: 0 <= k && k < len(sameBuffer) ==> result.worseThanCurrent[len(worseThanCurrent)][k] == old(sameBuffer[k]))
+//@             && isRecord(result.worseThanCurrent[len(worseThanCurrent)][len(sameBuffer)], current, currentEval, another.Id, newEval)
+//@   ensures [newcomer_takes_over] result.current == another && len(result.sameBuffer) == 0 && fresh(result.sameBuffer)
+
+//@ func (*RandomWinnerResolver).Resolve
+//@   property C11
+//@   fnparam generator ensures 0.0 <= result && result < 1.0
+//@   ensures [one_draw_decides] result != nil && (result.current == current || result.current == another) && len(result.worseThanCurrent) == len(worseThanCurrent) + 1
+//@             && (forall k int :: 0 <= k && k < len(worseThanCurrent) ==> result.worseThanCurrent[k] == old(worseThanCurrent[k]))
+
+
+//@ func (*Majority).takeBetter
+//@   property C11
+//@   fnparam generator ensures 0.0 <= result && result < 1.0
+//@   ensures [winner_score] result3 == ((abs(s1 - s2) <= eps || s2 < s1) ? s1 : s2)
+//@   ensures [clear_win_of_current] !(abs(s1 - s2) <= eps) && s2 < s1 ==> result2 == current && result1 == sameBuffer
+//@             && len(result0) == len(worseThanCurrent) + 1 && len(result0[len(worseThanCurrent)]) == 1
+//@             && isRecord(result0[len(worseThanCurrent)][0], another, s2, current.Id, s1)
+//@   ensures [clear_win_of_newcomer] !(abs(s1 - s2) <= eps) && !(s2 < s1) ==> result2 == another && len(result1) == 0
+//@             && len(result0) == len(worseThanCurrent) + 1 && len(result0[len(worseThanCurrent)]) == len(sameBuffer) + 1
+//@             && isRecord(result0[len(worseThanCurrent)][len(sameBuffer)], current, s1, another.Id, s2)
